@@ -29,6 +29,7 @@ type vTimedTransport struct {
 	buildFinal func() []byte
 	buildBusy  func() []byte
 	buildStale func() []byte // optional: a valid reply that belongs to another command (duplicate / delayed)
+	prompt     bool          // answer at once with the final reply (no draws, no assertions)
 	sends      int
 	record     bool
 }
@@ -39,6 +40,9 @@ func (t *vTimedTransport) Send(ctx context.Context, b []byte) ([]byte, error) {
 		cp := make([]byte, len(b))
 		copy(cp, b)
 		t.sent = append(t.sent, cp)
+	}
+	if t.prompt {
+		return t.buildFinal(), nil
 	}
 	now := vNowNs()
 	vAssert(now <= t.deadline+vAllowance, "c13-no-transmission-after-the-context's-deadline")
@@ -214,6 +218,47 @@ func VerifC13_CommandThenClose() {
 		vReached("?close-ok")
 	} else {
 		vReached("?close-error")
+	}
+	vReached("end")
+}
+
+// C13 (history): a second session open on a connection whose first open ran under another,
+// still live, context. The second open - every reply lost, late or garbage - must answer
+// to its own context: no transmission after its deadline, return by it.
+func VerifC13_SecondHandshake() {
+	tt := &vTimedTransport{}
+	s := newV2SessionlessTransport(tt, &dialConfig{timeout: time.Duration(vAttempt)})
+	s.backoff = backoff.NewConstantBackOff(time.Duration(vBackoff))
+	password := vBytes(4)
+	bmc := &refBMC{password: password, sidC: vU32(), rC: vBytes(16), guid: vBytes(16), useProposal: true}
+	tt.buildFinal = func() []byte { return bmc.handle(tt.sent[len(tt.sent)-1]) }
+	tt.buildBusy = func() []byte { return []byte{0x06, 0x00, 0xff, 0x07, 0x06} }
+	tt.record = true
+	opts := &V2SessionOpts{SessionOpts: SessionOpts{Password: password, MaxPrivilegeLevel: ipmi.PrivilegeLevelUser},
+		CipherSuites: []ipmi.CipherSuite{ipmi.CipherSuite3}}
+	vSetRetryBound(6)
+	vClockStart()
+	// first open: answered at once, under a context that stays alive for ten seconds
+	ctx1, cancel1 := context.WithTimeout(context.Background(), 10*time.Second)
+	defer cancel1()
+	tt.prompt = true
+	_, err := s.NewV2Session(ctx1, opts)
+	vAssert(err == nil, "c13-first-open-succeeds")
+	// second open under its own 40 ms deadline
+	tt.prompt = false
+	bmc2 := &refBMC{password: password, sidC: vU32(), rC: vBytes(16), guid: vBytes(16), useProposal: true}
+	tt.buildFinal = func() []byte { return bmc2.handle(tt.sent[len(tt.sent)-1]) }
+	start := vNowNs()
+	tt.deadline = start + 40*vMs
+	ctx2, cancel2 := context.WithTimeout(context.Background(), time.Duration(40*vMs))
+	defer cancel2()
+	sess, err := s.NewV2Session(ctx2, opts)
+	vAssert(vNowNs() <= tt.deadline+vAllowance, "c13-call-returns-by-its-context's-deadline")
+	if err == nil {
+		vAssert(sess != nil && bmc2.rakp3Seen, "c13-success-only-after-the-whole-exchange")
+		vReached("?success")
+	} else {
+		vReached("?error")
 	}
 	vReached("end")
 }
